@@ -39,8 +39,13 @@ confirmed = rc0 == 0 and rc1 != 0 and "108 passed" in res["tests_patched"] and a
 res["confirmed"] = confirmed
 # run checks on /repo
 assert sh("git -C /repo status --porcelain").stdout.strip() == "", "repo dirty"
-ap = sh("git -C /repo apply --3way %s/patch.diff 2>&1 || git -C /repo apply %s/patch.diff" % (src, src))
+ap = sh("git -C /repo apply %s/patch.diff" % src)
+if ap.returncode != 0 and os.path.exists("/verif/seeded/%s-%s/patch.rebased.diff" % (pid, k)):
+    ap = sh("git -C /repo apply /verif/seeded/%s-%s/patch.rebased.diff" % (pid, k))
 res["apply_repo"] = ap.returncode
+if ap.returncode != 0:
+    print("   patch does not apply to /repo HEAD (repo moved by fix: commits); put a rebased patch at "
+          "/verif/seeded/%s-%s/patch.rebased.diff" % (pid, k))
 det = {}
 if ap.returncode == 0:
     sh("git -C /repo reset -q")
